@@ -2,6 +2,7 @@ package main
 
 import (
 	"fmt"
+	"math/rand"
 
 	. "verif/internal/proto"
 	zr "verif/internal/znref"
@@ -102,5 +103,13 @@ func checkC02(c *Ctx) {
 		shapes = append(shapes, "rand/"+featureKey(g.features))
 	}
 	var inputs []map[string]Val
-	c.runRefCases("flow", progs, inputs, shapes, nil, nil)
+	// every other program is rendered in a random licensed layout (synonymous spellings, comments,
+	// separators - also after the last statement -, line ends, multi-line literals): the control
+	// flow and the program's value must not depend on it
+	c.runRefCases("flow", progs, inputs, shapes, func(i int) zr.Layout {
+		if i%2 == 0 {
+			return zr.Layout{}
+		}
+		return zr.RandomLayout(rand.New(rand.NewSource(c.Seed*1000003 + int64(i))))
+	}, nil)
 }
